@@ -9236,6 +9236,24 @@ class SVG(Group):
                     and values[SVG_ATTR_DISPLAY].lower() == SVG_VALUE_NONE
                 ):
                     continue  # If the attributes flag our values to display=none, stop rendering.
+                if tag in (
+                    SVG_NAME_TAG,
+                    SVG_TAG_GROUP,
+                    SVG_TAG_DEFS,
+                    SVG_TAG_CLIPPATH,
+                    SVG_TAG_USE,
+                    SVG_TAG_PATTERN,
+                ):
+                    try:
+                        Matrix(values.get(SVG_ATTR_TRANSFORM, ""))
+                    except ValueError as e:
+                        # The container's own transform is in error: it is skipped together with its content.
+                        if on_error == "raise":
+                            raise e
+                        if on_error == "stop":
+                            return root
+                        values[SVG_ATTR_DISPLAY] = SVG_VALUE_NONE
+                        continue
                 if SVG_NAME_TAG == tag:
                     # The ordering for transformations on the SVG object are:
                     # explicit transform, parent transforms, attribute transforms, viewport transforms
@@ -9371,9 +9389,17 @@ class SVG(Group):
                         if s is None:
                             # s was not established we continue without it.
                             continue
-                    s.render(ppi=ppi, width=width, height=height)
-                    if reify:
-                        s.reify()
+                    try:
+                        s.render(ppi=ppi, width=width, height=height)
+                        if reify:
+                            s.reify()
+                    except ValueError as e:
+                        # A length that cannot be resolved (e.g. em units without a font size) is an error as well.
+                        if on_error == "raise":
+                            raise e
+                        if on_error == "stop":
+                            return root
+                        continue
                     if s.is_degenerate():
                         continue
                     if context is not None:
